@@ -3,6 +3,8 @@ package compaction
 import (
 	"fmt"
 	"os"
+	"path/filepath"
+	"sort"
 	"sync"
 
 	"github.com/KevoDB/kevo/pkg/verifhook"
@@ -73,8 +75,16 @@ func (f *DefaultFileTracker) CleanupObsoleteFiles() error {
 	f.filesMu.Lock()
 	defer f.filesMu.Unlock()
 
-	// Safely remove obsolete files that aren't pending
+	// Safely remove obsolete files that aren't pending, oldest data first, so
+	// that a crash in the middle never leaves an older input file ranking
+	// above the compaction output while the newer input is already gone
+	paths := make([]string, 0, len(f.obsoleteFiles))
 	for path := range f.obsoleteFiles {
+		paths = append(paths, path)
+	}
+	sortOldestFirst(paths)
+
+	for _, path := range paths {
 		// Skip files that are still being used in a compaction
 		if f.pendingFiles[path] {
 			continue
@@ -95,4 +105,30 @@ func (f *DefaultFileTracker) CleanupObsoleteFiles() error {
 	}
 
 	return nil
+}
+
+// sortOldestFirst orders SSTable paths (level_sequence_timestamp.sst) so that
+// files holding older data come first: deeper levels before shallower ones,
+// and within a level lower sequence numbers and earlier timestamps first.
+func sortOldestFirst(paths []string) {
+	type fileAge struct {
+		level     int
+		sequence  uint64
+		timestamp int64
+	}
+	age := func(path string) fileAge {
+		var a fileAge
+		fmt.Sscanf(filepath.Base(path), "%d_%06d_%020d.sst", &a.level, &a.sequence, &a.timestamp)
+		return a
+	}
+	sort.SliceStable(paths, func(i, j int) bool {
+		a, b := age(paths[i]), age(paths[j])
+		if a.level != b.level {
+			return a.level > b.level
+		}
+		if a.sequence != b.sequence {
+			return a.sequence < b.sequence
+		}
+		return a.timestamp < b.timestamp
+	})
 }
